@@ -250,6 +250,44 @@ def run_C05(run):
                         code = (f"try:\n    r = {src}\nexcept EmptyNegativeAssertionException:\n    pass\nelse:\n    raise AssertionError(str(r))" if want_exc else
                                 f"assert str({src}) == str(Pregex({m}) if isinstance({m}, str) else {m})")
                         run.add([V(f'C05|empty-assertion|{src}', f"{src} -> {got!r}; documented: {exp}", code)])
+    # "identity" means the operand itself keeps working as what it was: a class that went through a construction with an
+    # empty operand still takes part in class algebra, a token still serves as a class argument, and the result combines like the operand
+    ident = [("({x}) + {e}", "({x})"), ("{e} + ({x})", "({x})"), ("({x}).concat({e})", "({x})"), ("({x}).concat({e}, on_right=False)", "({x})"),
+             ("Concat({x}, {e})", "Concat({x})"), ("Concat({e}, {x})", "Concat({x})"), ("Concat({e}, {x}, {e})", "Concat({x})"),
+             ("({x}).enclose({e})", "({x})"), ("Enclose({x}, {e})", "Enclose({x})"), ("Either({x}, {e})", "Either({x})"), ("({x}).either({e})", "({x})"),
+             ("({x}).followed_by({e})", "({x})"), ("({x}).preceded_by({e})", "({x})"), ("({x}).enclosed_by({e})", "({x})")]
+    follow = {
+        # (whether the result is still an instance of the class type - and so takes part in class algebra - is not something the
+        # property states: `AnyDigit() + Pregex()` is a plain Pregex on the unchanged tree; only pattern-level continuations are judged)
+        'class': ["Optional({r})", "({r}) + 'x'", "Either({r}, 'x') + 'y'", "({r}).exactly(2)", "PrecededBy('k', {r})", "Capture({r}, 'c')"],
+        'token': ["AnyFrom({r}, 'a')", "AnyBetween({r}, '~')", "Optional({r})", "({r}) + 'x'", "({r}) * 2"],
+        'other': ["Optional({r})", "({r}) + 'x'", "Either({r}, 'x') + 'y'", "Capture({r})", "({r}).exactly(2)", "PrecededBy('k', {r})"],
+    }
+    subjects = [('class', c) for c in ("AnyDigit()", "AnyLetter()", "AnyFrom('a', 'b')", "AnyButFrom('a')", "AnyBetween('a', 'f')", "AnyButWhitespace()", "AnyWordChar()", "Any()")]
+    subjects += [('token', t) for t in ("Newline()", "Backslash()", "Space()", "Dollar()")]
+    subjects += [('other', o) for o in ("Pregex('ab')", "Either('a', 'b')", "Optional('a')", "Capture('a', 'n')", "Group('a', True)", "MatchAtStart('a')", "'a' + AnyDigit()")]
+    m = 0
+    for kind, xs in subjects:
+        for e in ("Pregex()", "''", "Exactly('a', 0)", "Concat()"):
+            for f, fr in ident:
+                for g in follow[kind]:
+                    a_src, b_src = g.format(r=f.format(x=xs, e=e)), g.format(r=fr.format(x=xs))
+                    m += 1
+                    res = []
+                    for src in (a_src, b_src):
+                        try:
+                            res.append(('ok', str(dsl.build(src))))
+                        except Exception as ex:  # noqa: BLE001
+                            res.append(('raise', type(ex).__name__))
+                    a, b = res
+                    ok = a == b or (a[0] == b[0] == 'ok' and (a[1] == '') == (b[1] == '') and rx.equiv(a[1], b[1])[0] in ('tree', 'texts'))
+                    if not ok:
+                        run.add([V(f'C05|identity-then|{a_src}', f"{a_src} -> {a!r} but without the empty operand {b_src} -> {b!r}",
+                                   "from mc import rx\ndef out(f):\n    try:\n        return ('ok', str(f()))\n    except Exception as e:\n        return ('raise', type(e).__name__)\n"
+                                   f"a = out(lambda: {a_src})\nb = out(lambda: {b_src})\n"
+                                   "assert a == b or (a[0] == b[0] == 'ok' and rx.equiv(a[1], b[1])[0] in ('tree', 'texts')), (a, b)")])
+    run.count('identity_then_cases', m)
+    n += m
     run.count('nary_empty_cases', n)
     cov['transitions'] += n
     return cov, assumptions
@@ -335,10 +373,67 @@ def _task_assertions(lits):
     return viol, n
 
 
+def _task_structured_assertions(arg):
+    """direct assertion instances whose match / assertion operands are structured patterns (nullable, quantified, grouped, classes,
+    alternations): still refused by every repeating quantifier, still accepted by the non-repeating ones"""
+    from ..common import V
+    dsl.setup_worker()
+    viol, n = [], 0
+    quants = ["OneOrMore({0})", "({0}).exactly(2)", "({0}) * 3", "AtLeastAtMost({0}, 1, 2)", "Indefinite({0}, False)", "AtLeast({0}, 0)", "({0}).at_most(None)"]
+    accept = ["Optional({0})", "({0}).exactly(1)", "AtMost({0}, 1)", "({0}) * 0"]
+    for inner in arg:
+        try:
+            dsl.build(inner)
+        except Exception:  # noqa: BLE001
+            continue       # e.g. a variable-width lookbehind: not an assertion instance at all (C10's question)
+        for q in quants:
+            src = q.format(inner)
+            n += 1
+            try:
+                r = dsl.build(src)
+                bad = 'accepted: ' + str(r)
+            except Exception as e:  # noqa: BLE001
+                bad = None if type(e).__name__ == 'CannotBeRepeatedException' else 'raised ' + type(e).__name__
+            if bad:
+                viol.append(V(f'C09|assertion|{src}', f"{src}: {bad} (a direct assertion instance must be refused with CannotBeRepeatedException)",
+                              f"try:\n    r = {src}\nexcept CannotBeRepeatedException:\n    pass\nelse:\n    raise AssertionError('accepted: ' + str(r))"))
+        for q in accept:
+            src = q.format(inner)
+            n += 1
+            try:
+                dsl.build(src)
+            except Exception as e:  # noqa: BLE001
+                viol.append(V(f'C09|assertion|{src}', f"{src}: raised {type(e).__name__} (a quantifier that cannot repeat is accepted for every operand)", f"r = {src}"))
+    return viol, n
+
+
+STRUCT_OPERANDS = ["'k'", "Optional('b')", "Indefinite(AnyDigit())", "AtMost('b', 2)", "AtLeastAtMost('b', 0, 2)", "Group(Optional('b'))", "Optional('b') + Optional('c')",
+                   "AnyDigit()", "Either('b', 'cd')", "Capture('b')", "Capture(Optional('b'), 'g')", "Exactly(AnyDigit(), 4)", "Pregex('{2}')", "OneOrMore('b')",
+                   "Newline()", "AnyFrom('\\n', 'x')", "'b\\nc'", "NotFollowedBy('b', 'c')", "WordBoundary()", "Group('b', True)", "Either(Optional('b'), 'c')",
+                   "Backreference(1)", "Indefinite(Either('b', 'c'), False)", "AnyButFrom('\\n')", "Exactly('b', 2) + Optional('c')"]
+
+
 def run_C09(run):
     from .. import common
+    import itertools
     cov, assumptions = _run(run, [monitors.C09()])
     _literal_sweep(run, 'C09', cov)
+    inners = []
+    for m_, a_ in itertools.product(STRUCT_OPERANDS, repeat=2):
+        for t in ("FollowedBy({m}, {a})", "PrecededBy({m}, {a})", "EnclosedBy({m}, {a})", "({m}).followed_by({a})" if m_[0] != "'" else "Pregex({m}).followed_by({a})",
+                  "FollowedBy({m}, 'x', {a})", "FollowedBy({m}, {a}, {a})"):
+            inners.append(t.format(m=m_, a=a_))
+    for m_ in STRUCT_OPERANDS:
+        for t in ("MatchAtStart({m})", "MatchAtEnd({m})", "MatchAtLineStart({m})", "MatchAtLineEnd({m})"):
+            inners.append(t.format(m=m_))
+    ns = 0
+    for viol, k in common.pmap(_task_structured_assertions, common.chunks(inners, 100)):
+        run.add(viol)
+        ns += k
+    run.count('structured_assertion_cases', ns)
+    cov['transitions'] += ns
+    cov['traces_validated_against_impl'] += ns
+    cov['rule'] += f' || {len(inners)} direct assertion instances over {len(STRUCT_OPERANDS)} structured match/assertion operands (nullable, quantified, grouped, multi-line) x 7 repeating and 4 non-repeating quantifier forms'
     lits = [s for s in al.all_literals() if s]
     if run.tier == 'quick':
         lits = [s for s in lits if len(s) == 1 or s in al.CURATED] + [s for i, s in enumerate(lits) if len(s) == 2 and i % 4 == 0]
